@@ -105,6 +105,19 @@ func newFactCtx(info *types.Info, path []ast.Node) *factCtx {
 			fc.preceding(p.List, child)
 		case *ast.CaseClause:
 			fc.preceding(p.Body, child)
+			// inside a clause of a tagless switch the earlier clauses' conditions are false
+			if i+3 < len(path) {
+				if sw, ok := path[i+3].(*ast.SwitchStmt); ok && sw.Tag == nil && sw.Body != nil {
+					for _, cs := range sw.Body.List {
+						if cs == ast.Stmt(p) {
+							break
+						}
+						if cc, ok := cs.(*ast.CaseClause); ok && len(cc.List) == 1 {
+							fc.add(cc.List[0], false, cc.Colon, nil)
+						}
+					}
+				}
+			}
 		case *ast.CommClause:
 			fc.preceding(p.Body, child)
 		}
@@ -119,6 +132,17 @@ func (fc *factCtx) preceding(list []ast.Stmt, child ast.Node) {
 		}
 		if iff, ok := s.(*ast.IfStmt); ok && iff.Else == nil && terminates(iff.Body) {
 			fc.add(iff.Cond, false, iff.End(), nil)
+		}
+		// a tagless switch whose clauses all leave: `switch { case a: return …; case b: return … }`
+		// is the if-chain `if a { return }; if b { return }`
+		if sw, ok := s.(*ast.SwitchStmt); ok && sw.Tag == nil && sw.Init == nil && sw.Body != nil {
+			for _, cs := range sw.Body.List {
+				cc, ok := cs.(*ast.CaseClause)
+				if !ok || len(cc.List) != 1 || len(cc.Body) == 0 || !terminates(&ast.BlockStmt{List: cc.Body}) {
+					continue
+				}
+				fc.add(cc.List[0], false, sw.End(), nil)
+			}
 		}
 	}
 }
